@@ -81,6 +81,14 @@ func (si *segInterp) run(fr *segFrame) ([]string, bool) {
 		if rs, ok := s.(*ast.ReturnStmt); ok {
 			returned = true
 			if len(rs.Results) == 0 {
+				// a bare return of a named result
+				if res := fr.fd.Type.Results; res != nil && len(res.List) == 1 && len(res.List[0].Names) == 1 {
+					v, ok := si.value(fr, res.List[0].Names[0])
+					if !ok {
+						return nil, false
+					}
+					ret = v
+				}
 				continue
 			}
 			if len(rs.Results) != 1 {
